@@ -11,12 +11,13 @@ from harness.props import c06, c10
 
 OBLIGATIONS = [
     "PgmVerif.C11_apply_acyclic", "PgmVerif.C11_hc_acyclic", "PgmVerif.C11_best_is_max", "PgmVerif.C11_loop_stops_below_eps",
-    "PgmVerif.C11_hc_lists", "PgmVerif.C11_delta_exact", "PgmVerif.C11_hc_monotone",
+    "PgmVerif.C11_hc_lists", "PgmVerif.C11_delta_exact", "PgmVerif.C11_hc_monotone", "PgmVerif.C11_hc_indegree",
     "PgmVerif.C11_defaults_tie",
 ]
 PARTIAL = ["maximum-weight spanning tree optimality (networkx) is compared per case with the brute-force maximum of the Lean spec (<= 6 nodes)",
            "black-box runs with the real scores check the contract only (acyclic, lists, in-degree, score not lower than the start)",
-           "the in-degree bound is compared through the white-box trajectory and contract checks, not a theorem"]
+           "the in-degree bound is proved for the model's search loop (C11_hc_indegree: a start graph within the limit stays within it at "
+           "every step); the implementation's loop is tied to it through the white-box trajectory and the contract checks"]
 RULE = ("white-box: a StructureScore whose local scores are a random dyadic table (tie-free deltas) over 3-5 variables with random start DAG, "
         "fixed/black/white lists, max_indegree, tabu_length, epsilon, max_iter -> identical final DAG required; black-box: real scores on data; "
         "exhaustive search on 2-4 variables; Chow-Liu with synthetic distinct weights for every root; non-trivial = at least one move made; "
